@@ -15,4 +15,40 @@ TEXT = {
         "design_ref": "DESIGN.md section 5, C19",
         "level_note": "trusted: the 20-line reference resolver ('..' pops, '.'/empty skipped). Only ordinary components (no '.' or '..' in the inputs), both paths absolute or both relative.",
     },
+    "C01": {
+        "technique": "runtime round-trip monitor: real encoder+decoder driven on generated maps, observation equality through public accessors, byte idempotence; ASan repeat",
+        "level_text": "exploration: 150k (quick) / 6M (thorough) random well-formed maps of every kind and construction route are written and read back; the two maps are compared through public accessors exactly as the statement lists (token sequence modulo exact consecutive duplicates, sources, names, contents, file, root, debug id, ignore list, section offsets/URLs, Hermes scopes), and ser(dec(ser(d))) == ser(d) bytewise for decoded d. A symmetric encoder/decoder error is invisible here by construction (C02/C03 cover it).",
+        "design_ref": "DESIGN.md section 5, C01",
+        "level_note": "trusted: harness/src/observe.rs (public accessors only), generators; no reference model is involved. Generated lines stay small (the format spends a byte per line).",
+    },
+    "C02": {
+        "technique": "runtime differential monitor: independent v3 writer (own VLQ, cross-checked against the vlq crate) -> real decoder, decoded map compared with the abstract model",
+        "level_text": "exploration: 200k (quick) / 8M (thorough) documents produced from an abstract mapping model plus presentation by an encoder that shares no code with the crate are decoded through decode_slice, decode(reader) and SourceMap::from_slice; the model is the expected result (positions, running source/line/column/name state, arity, kind dispatch, null sources, integer names, debug_id precedence, sourceRoot join rule). Equal positions are compared as multisets.",
+        "design_ref": "DESIGN.md section 5, C02",
+        "level_note": "trusted: reference VLQ/mappings/Metro writers (self-checked and cross-checked at start-up), serde_json string escaping. Only features the statement fixes are generated (no float names, no document with both dispatch keys).",
+    },
+    "C03": {
+        "technique": "runtime monitor: real encoder output parsed by serde_json and read by a strict independent mappings decoder, compared field by field with the map's accessors",
+        "level_text": "exploration: maps from every producer (constructors, builder, decode, rewrite with random options, flatten, adjust_mappings, nested indexes) are serialised; the output must be a JSON object with version 3 whose mappings the strict reference decoder reads back as the map's own (position, source index, original position, name index) list, whose sources/sourceRoot join to get_source(i), and whose optional keys are absent rather than null; recursively for index sections and their offsets.",
+        "design_ref": "DESIGN.md section 5, C03",
+        "level_note": "trusted: reference mappings decoder, serde_json as JSON reader. Key order and whitespace are not asserted.",
+    },
+    "C04": {
+        "technique": "runtime monitor with linear-scan reference lookup and ordering invariants checked after every operation of random operation chains; exhaustive small grid",
+        "level_text": "exploration with an exhaustive sub-space: all insertion sequences of <= 4 tokens on a 2x3 grid x all grid queries (both constructors); 60k/3M random maps with up to 85% duplicated positions x a query sweep incl. u32::MAX; 8k/300k histories of 1..8 producing operations (rewrite, write+read, flatten, adjust_mappings, builder copy) with ordering, get_token/get_token_count agreement and the lookup sweep re-checked at every quiescent point.",
+        "design_ref": "DESIGN.md section 5, C04",
+        "level_note": "trusted: 15-line reference scan over the map's own iteration order. No range tokens here (C07).",
+    },
+    "C06": {
+        "technique": "fault injection into well-formed mappings strings at every site, strict reference decoder as filter, real decoder must return Err; plus index-resolution invariant on every Ok decode",
+        "level_text": "fault enumeration: for each of 3k (quick) / 250k (thorough) well-formed bases every applicable single fault of the classes named in the statement is injected at every site (each segment, each value, each index reference, each byte offset), then random combinations; the crate must reject every string the strict reference rejects, parse_vlq_segment must reject VLQ-level faults, and no accepted map may hold an unresolvable index.",
+        "design_ref": "DESIGN.md section 5, C06",
+        "level_note": "trusted: strict reference decoder. Which error variant is returned is not asserted. Negative generated columns are not in the statement's list and not asserted.",
+    },
+    "C07": {
+        "technique": "runtime monitor: reference rangeMappings bitfield codec + reference lookup with the range-offset rule, over exhaustive flag subsets of small shapes, explicit edge shapes and random maps; Miri (Tree Borrows) and ASan repeats",
+        "level_text": "exploration with exhaustive sub-spaces: every assignment of the range flag over every shape with <= 3 lines / <= 6 tokens per line / <= 8-10 tokens, explicit shapes for first/last-on-line, bit index 15..100, duplicates before the flagged token, and random maps; checks (a) rangeMappings text decoded by the reference codec equals the flags of the written tokens, (b) write+read preserves is_range, (c) reference-encoded documents decode to the model's flags, (d) every lookup reports src_col + distance only for a range token hit on its own line, never panics.",
+        "design_ref": "DESIGN.md section 5, C07",
+        "level_note": "trusted: reference bitfield codec (checked against the crate's own three unit-test vectors), reference lookup. Offsets that would exceed u32 are only required not to panic.",
+    },
 }
